@@ -78,12 +78,12 @@ def judge(ctx, c, answers):
                     ctx.violation('pda-accepts-raises', {'case': sub, 'impl': got})
                     continue
                 v = got['ok']
-                res.append(v if lim == 40 else None)
                 if v and not exp:
                     ctx.violation('pda-unsound', {'case': sub, 'impl': v, 'exact': exp})
                 R = exact_run(P, w, lim)
                 m = la.get('ok', {})
                 if R is not None:
+                    res.append(v)          # answers under a truncated closure may depend on the pop order: not compared across hash seeds
                     ctx.count('untruncated')
                     full = any(q in P.F for q, _ in R)
                     if full != exp:
